@@ -122,7 +122,7 @@ LINE_GAPS = (None, 1, 2, 3, 5, 8, 13, 21, 34, 55, 89, 144, 233, 377, 610, 987, 1
 
 class Sim:
     def __init__(self, tape, p_switch=0.2, line_gap_max=0, trace_files=(),
-                 max_steps=1_500_000, max_virtual=None):
+                 max_steps=1_500_000, max_virtual=None, spin_reads=5000):
         self.tape = tape
         self.now = EPOCH
         self.wall_offset = 0.0        # wall clock = now + wall_offset (clock step faults)
@@ -135,6 +135,7 @@ class Sim:
         self.nswitch = 0
         self.nchoice2 = 0             # scheduling decisions with >= 2 candidates
         self.max_steps = max_steps
+        self.spin_reads = spin_reads    # clock reads in a row (nothing else done) after which a task counts as spinning
         self.max_virtual = max_virtual
         self.done = _real_allocate()
         self.done.acquire()
@@ -367,6 +368,9 @@ class Sim:
     def yield_point(self):
         if self.finished:
             raise SimAbort()
+        t = self.cur()
+        if t is not None:
+            t.clock_reads = 0      # the task does something else than reading the clock
         self._schedule()
 
     def wait_until(self, pred, timeout=None, what=None):
@@ -376,11 +380,11 @@ class Sim:
             raise HarnessError('blocking call outside a simulation task')
         if self.finished:
             raise SimAbort()
+        t.clock_reads = 0
         if timeout is not None and timeout <= 0:
             self._schedule()
             return bool(pred())
         t.state = 'blocked'
-        t.clock_reads = 0
         t.pred = pred
         t.waiting_on = what
         t.deadline = None if timeout is None else self.now + timeout
@@ -612,7 +616,7 @@ class _Callable:
         return self.fn(*a, **k)
 
 
-SPIN_READS = 5000            # a task reading the clock that often without blocking or locking is spinning
+SPIN_READS = 5000            # (after the end of a run) a task still reading the clock that often is aborted
 SPIN_TICK = 1e-2
 
 
@@ -621,12 +625,14 @@ def _tick(sim):
     real machine and its reads get coarser, so that the run reaches its horizon"""
     t = sim.by_ident[_real_get_ident()]
     t.clock_reads += 1
-    if t.clock_reads <= SPIN_READS:
+    if sim.spin_reads is None or t.clock_reads <= sim.spin_reads:
         sim.now += TICK
         return
     sim.now += SPIN_TICK
     sim.counters['kernel.spinning-task-preempted'] = sim.counters.get('kernel.spinning-task-preempted', 0) + 1
-    sim.yield_point()
+    if sim.finished:
+        raise SimAbort()
+    sim._schedule()
 
 
 def _after_end(sim):
